@@ -244,3 +244,16 @@ Theorem C10_redundant_sprint_formatter_refuted :
   exists o s, fo_error o = None /\ fo_string o = Some s /\ fmt_sprint o <> s.
 Proof. exact redundant_sprint_formatter_refuted. Qed.
 Print Assumptions C10_redundant_sprint_formatter_refuted.
+
+(* recorded findings of round 4 *)
+Theorem C10_bool_simplify_float_flag_missed_refuted :
+  exists en e, env_ok en /\ typeof e = Some TBool /\ has_floats e = true /\
+    print_expr (simp false e) = "x >= y" /\
+    eval en e = Some (RVal (VBool true), []) /\ eval en (simp false e) = Some (RVal (VBool false), []).
+Proof. exact float_flag_missed_refuted. Qed.
+Print Assumptions C10_bool_simplify_float_flag_missed_refuted.
+
+Theorem C10_defer_unlambda_func_var_refuted :
+  exists c st1 st2, defer_unlambda_flags c = true /\ callee_eval st1 c <> callee_eval st2 c.
+Proof. exact defer_unlambda_func_var_refuted. Qed.
+Print Assumptions C10_defer_unlambda_func_var_refuted.
